@@ -264,6 +264,9 @@ func c11(c *ctx) {
 	// ------------------------------------------------------------------ R10
 	c.ruleBlockResultsReadOnly("R10")
 
+	// ------------------------------------------------------------------ R11
+	c.ruleIndexKeysOrdered("R11")
+
 }
 
 // the named result `r` lives in a cell because of the deferred recover: it holds the fresh results object or nil
@@ -667,4 +670,145 @@ func (c *ctx) ruleBlockResultsReadOnly(R string) {
 	}
 	r.Analysed["block_result_holders"] = holders
 	r.Check(holders >= 5, R+"/holders", "?", fmt.Sprintf("%d functions hold a block result they did not create; %d mutate it", holders, bad), fmt.Sprintf("only %d functions holding a block result found (rule needs re-reading)", holders))
+}
+
+// ruleIndexKeysOrdered (C11.R11): the archive rebuilds a block (and every "by height" listing) by iterating an indexer key
+// prefix in the database's byte order, so byte order must be numeric order: every number that becomes part of an indexer
+// key is encoded fixed-width big-endian. Decided structurally: in every call of Indexer.key, a key segment that is
+// computed from an integer reaches it through Indexer.encodeBigEndian (or a method of binary.BigEndian), and
+// encodeBigEndian itself writes 8 big-endian bytes. A variable-length or little-endian encoding sorts 256 before 3.
+func (c *ctx) ruleIndexKeysOrdered(R string) {
+	r := c.r
+	r.Rule(R, "FLOW", "archive order: every integer that becomes a segment of an indexer key (Indexer.key call sites) is encoded by Indexer.encodeBigEndian or binary.BigEndian, and encodeBigEndian writes a fixed 8-byte big-endian value: prefix iteration then returns transactions, events and blocks in numeric order", 30)
+	keyFn := c.p.Fn("store.(*Indexer).key")
+	enc := c.p.Fn("store.(*Indexer).encodeBigEndian")
+	if !r.Anchor(keyFn != nil && enc != nil, "(*store.Indexer).key / encodeBigEndian") {
+		return
+	}
+	isBE := func(cc *ssa.CallCommon) bool {
+		if callIs(cc, enc) {
+			return true
+		}
+		if sc := cc.StaticCallee(); sc != nil && sc.Signature.Recv() != nil && sc.Pkg != nil && sc.Pkg.Pkg.Path() == "encoding/binary" {
+			rt := sc.Signature.Recv().Type()
+			if pt, ok := rt.(*types.Pointer); ok {
+				rt = pt.Elem()
+			}
+			if nt := namedOf(rt); nt != nil && nt.Obj().Name() == "bigEndian" {
+				return sc.Name() == "PutUint64" || sc.Name() == "AppendUint64"
+			}
+		}
+		return false
+	}
+	// encodeBigEndian's own body
+	okBody, other := false, ""
+	for _, g := range bodyFuncs(enc, true) {
+		instrs(g, func(in ssa.Instruction) {
+			cc := callCommon(in)
+			if cc == nil {
+				return
+			}
+			if sc := cc.StaticCallee(); sc != nil && sc.Pkg != nil && sc.Pkg.Pkg.Path() == "encoding/binary" {
+				if isBE(cc) {
+					okBody = true
+				} else {
+					other = calleeName(cc)
+				}
+			}
+		})
+	}
+	r.Check(okBody && other == "", R+"/encodeBigEndian/body", c.p.Pos(enc.Pos()), "binary.BigEndian.PutUint64 on 8 bytes", "Indexer.encodeBigEndian no longer encodes with binary.BigEndian 64-bit ("+other+"): indexer keys would not sort in numeric order")
+	// a segment computed from an integer: walk the definition of the value
+	var numeric func(v ssa.Value, seen map[ssa.Value]bool, d int) ssa.Value
+	numeric = func(v ssa.Value, seen map[ssa.Value]bool, d int) ssa.Value {
+		if v == nil || seen[v] || d > 12 {
+			return nil
+		}
+		seen[v] = true
+		if b, ok := v.Type().Underlying().(*types.Basic); ok && b.Info()&types.IsInteger != 0 && b.Kind() != types.Uint8 && b.Kind() != types.Int8 {
+			if _, isConst := v.(*ssa.Const); !isConst {
+				return v
+			}
+		}
+		switch x := v.(type) {
+		case *ssa.Call:
+			if isBE(x.Common()) {
+				return nil
+			}
+			if sc := x.Common().StaticCallee(); sc != nil && (c.p.transparentSite(sc) != nil || c.p.isNewNamed(sc)) {
+				// a helper this change introduced: what it returns counts, with its parameters read at this call
+				for _, b := range sc.Blocks {
+					if ret, ok := b.Instrs[len(b.Instrs)-1].(*ssa.Return); ok {
+						for _, res := range ret.Results {
+							if n := numeric(res, seen, d+1); n != nil {
+								return n
+							}
+						}
+					}
+				}
+				return nil
+			}
+			// bytes in, bytes out (hashes, joins, conversions of addresses): the arguments decide
+			for _, a := range x.Common().Args {
+				if n := numeric(a, seen, d+1); n != nil {
+					return n
+				}
+			}
+			return nil
+		case *ssa.Parameter:
+			if site := c.p.transparentSite(x.Parent()); site != nil {
+				for i, pa := range x.Parent().Params {
+					if pa == x && i < len(site.Common().Args) && !site.Common().IsInvoke() {
+						return numeric(site.Common().Args[i], seen, d+1)
+					}
+				}
+			}
+			return nil
+		case *ssa.Phi:
+			for _, e := range x.Edges {
+				if n := numeric(e, seen, d+1); n != nil {
+					return n
+				}
+			}
+		case *ssa.Convert:
+			return numeric(x.X, seen, d+1)
+		case *ssa.ChangeType:
+			return numeric(x.X, seen, d+1)
+		case *ssa.Slice:
+			return numeric(x.X, seen, d+1)
+		case *ssa.MakeInterface:
+			return numeric(x.X, seen, d+1)
+		}
+		return nil
+	}
+	n := 0
+	for _, f := range c.p.Funcs {
+		if !inCanopy(f) || pkgShort(f) != "store" || isTestFile(c.p, f.Pos()) {
+			continue
+		}
+		instrs(f, func(in ssa.Instruction) {
+			cc := callCommon(in)
+			if cc == nil || !callIs(cc, keyFn) {
+				return
+			}
+			args := cc.Args
+			if cc.StaticCallee() != nil && cc.StaticCallee().Signature.Recv() != nil && len(args) > 0 {
+				args = args[1:]
+			}
+			for i, a := range args {
+				if i == 0 {
+					continue // the prefix
+				}
+				n++
+				bad := numeric(a, map[ssa.Value]bool{}, 0)
+				r.Check(bad == nil, fmt.Sprintf("%s/%s/segment%d", R, fnName(enclosing(f)), i), c.p.Pos(in.Pos()), "segment "+short(c.p.path(a)), fmt.Sprintf("%s builds an indexer key segment from the number %s without the fixed-width big-endian encoder (%s): the keys of that prefix no longer iterate in numeric order, so the archive returns a block's transactions (or a listing) in a different order than they were indexed", fnName(enclosing(f)), func() string {
+					if bad != nil {
+						return c.p.path(bad)
+					}
+					return ""
+				}(), c.p.path(a)))
+			}
+		})
+	}
+	r.Analysed["indexer_key_segments"] = n
 }
